@@ -267,6 +267,33 @@ Definition new_map (sh : N -> list name -> list name) (g : graph) : mres :=
   | v => MErr v
   end.
 
+(** * Source-derived parameters of sorting and placing (regenerated from
+      /repo by gen/dags.go into Gen/DagsSrc.v) *)
+
+(** sort keys of the Less methods *)
+Inductive ckey := KLayer | KNCritIns | KNCritOuts | KName | KUnknown.
+Definition cmp_keys := list (ckey * bool).        (* key, ascending? *)
+
+(** one arm of snapNearBy: all conditions (offset from y, expected taken?)
+    hold => y moves by sn_move *)
+Record snap_rule := mkSnap { sn_conds : list (Z * bool); sn_move : Z }.
+
+Record lparams := mkP {
+  p_by_layer : cmp_keys;        (* byLayer.Less *)
+  p_by_ncrit : cmp_keys;        (* byNcritOuts.Less *)
+  p_reserve : list Z;           (* offsets o with tak[y+o] = true in LayoutMap *)
+  p_snap : list snap_rule;      (* snapNearBy *)
+}.
+
+Fixpoint cmp_lt (val : ckey -> name -> N) (ks : cmp_keys) (a b : name) : bool :=
+  match ks with
+  | [] => false
+  | (k, asc) :: r =>
+      if N.ltb (val k a) (val k b) then asc
+      else if N.ltb (val k b) (val k a) then negb asc
+      else cmp_lt val r a b
+  end.
+
 (** * push_tight.go (after the fix: checkPush memoised per call, pushNode
       skips nodes already in the pushed set) *)
 
@@ -276,6 +303,7 @@ Definition lget (L : lays) (v : name) : nat := aget 0 L v.
 Definition pmemo := list (name * (bool * bool)).
 
 Section Push.
+Variable P : lparams.
 Variable m : dmap.
 Let nl := m_nlayer m.
 
@@ -365,10 +393,16 @@ Fixpoint push_while (fuel : nat) (L : lays) (node : name) : pres :=
       end
   end.
 
-Definition by_layer_lt (L : lays) (a b : name) : bool :=
-  if Nat.ltb (lget L a) (lget L b) then true
-  else if Nat.ltb (lget L b) (lget L a) then false
-  else N.ltb a b.
+Definition kval (L : lays) (k : ckey) (v : name) : N :=
+  match k with
+  | KLayer => N.of_nat (lget L v)
+  | KNCritIns => N.of_nat (length (m_crit_ins m v))
+  | KNCritOuts => N.of_nat (length (m_crit_outs m v))
+  | KName => v
+  | KUnknown => 0%N
+  end.
+
+Definition by_layer_lt (L : lays) : name -> name -> bool := cmp_lt (kval L) (p_by_layer P).
 
 Definition sorted_nodes (L : lays) : list name :=
   sort_by (by_layer_lt L) (keys (m_g m)).
@@ -387,23 +421,13 @@ Definition push_tight : pres := push_all (m_lay0 m) (rev (sorted_nodes (m_lay0 m
 
 (** * layout.go LayoutMap *)
 
-Definition by_ncrit_lt (a b : name) : bool :=
-  let nin1 := length (m_crit_ins m a) in
-  let nin2 := length (m_crit_ins m b) in
-  if Nat.ltb nin1 nin2 then false
-  else if Nat.ltb nin2 nin1 then true
-  else
-    let nout1 := length (m_crit_outs m a) in
-    let nout2 := length (m_crit_outs m b) in
-    if Nat.ltb nout1 nout2 then false
-    else if Nat.ltb nout2 nout1 then true
-    else N.ltb a b.
+Definition by_ncrit_lt (L : lays) : name -> name -> bool := cmp_lt (kval L) (p_by_ncrit P).
 
 (** SortedLayers (after pushing); indexing ret[node.layer] panics when a
     layer is out of range *)
 Definition sorted_layers (L : lays) : option (list (list name)) :=
   if forallb (fun v => Nat.ltb (lget L v) nl) (keys (m_g m)) then
-    Some (map (fun i => sort_by by_ncrit_lt
+    Some (map (fun i => sort_by (by_ncrit_lt L)
                          (filter (fun v => Nat.eqb (lget L v) i) (keys (m_g m))))
               (seq 0 nl))
   else None.
@@ -435,11 +459,16 @@ Fixpoint find_y (fuel : nat) (tak : list Z) (yavg offset : Z) : option Z :=
       else find_y f tak yavg (offset + 1)%Z
   end.
 
-Definition snap_near_by (tak : list Z) (y : Z) : Z :=
-  if zmem (y - 2) tak && negb (zmem (y - 1) tak) then (y - 1)%Z
-  else if negb (zmem (y - 1) tak) && zmem (y + 2) tak && negb (zmem (y + 1) tak)
-       then (y + 1)%Z
-       else y.
+Definition rule_holds (tak : list Z) (y : Z) (r : snap_rule) : bool :=
+  forallb (fun c => Bool.eqb (zmem (y + fst c) tak) (snd c)) (sn_conds r).
+
+Fixpoint snap_rules (tak : list Z) (y : Z) (rs : list snap_rule) : Z :=
+  match rs with
+  | [] => y
+  | r :: rest => if rule_holds tak y r then (y + sn_move r)%Z else snap_rules tak y rest
+  end.
+
+Definition snap_near_by (tak : list Z) (y : Z) : Z := snap_rules tak y (p_snap P).
 
 Definition crit_out_max_layer (L : lays) (n : name) : nat :=
   fold_left (fun r o => if Nat.ltb r (lget L o) then lget L o else r)
@@ -463,7 +492,7 @@ Definition place (L : lays) (st : lstate) (node : name) : lres :=
   | None => LFuel
   | Some y0 =>
       let y := snap_near_by tak y0 in
-      let slots1 := take_slot (l_slots st) x [(y - 1)%Z; y; (y + 1)%Z] in
+      let slots1 := take_slot (l_slots st) x (map (fun o => (y + o)%Z) (p_reserve P)) in
       let xmax := crit_out_max_layer L node in
       let slots2 :=
         fold_left (fun s i => take_slot s i [y]) (seq (S x) (xmax - S x)) slots1 in
@@ -509,6 +538,20 @@ Definition layout_map : vres :=
   end.
 
 End Push.
+
+(** decidable well-formedness of the source-derived parameters: every
+    snapNearBy arm tests that its target slot is free; the node's own slot is
+    among the reserved ones; both sort orders end in the (unique) name, so
+    that sort.Sort has exactly one possible result *)
+Definition snap_ok (rs : list snap_rule) : bool :=
+  forallb (fun r => existsb (fun c => Z.eqb (fst c) (sn_move r) && negb (snd c)) (sn_conds r)) rs.
+Definition reserve_ok (l : list Z) : bool := existsb (Z.eqb 0) l.
+Definition keys_total (ks : cmp_keys) : bool :=
+  match last ks (KUnknown, true) with (KName, _) => true | _ => false end &&
+  forallb (fun k => match fst k with KUnknown => false | _ => true end) ks.
+Definition params_ok (P : lparams) : bool :=
+  snap_ok (p_snap P) && reserve_ok (p_reserve P) &&
+  keys_total (p_by_layer P) && keys_total (p_by_ncrit P).
 
 (** * graph.go Reverse *)
 
